@@ -7,6 +7,8 @@
 package main
 
 import (
+	"encoding/binary"
+	"bytes"
 	"bufio"
 	"encoding/json"
 	"errors"
@@ -24,6 +26,7 @@ import (
 	"github.com/hashicorp/raft"
 	wal "github.com/hashicorp/raft-wal"
 	"github.com/hashicorp/raft-wal/segment"
+	"github.com/hashicorp/raft-wal/types"
 
 	"verif/harness/sim"
 	"verif/harness/valpool"
@@ -47,6 +50,9 @@ type Scenario struct {
 	// everybody else stays at the next gate they reach - until it has finished or is blocked (no gate reached
 	// for soloQuiet); then all run freely. Turns one co-location witness into the two "who moves first" orders.
 	Solo string `json:"solo"`
+	// HotReaders (free mode): goroutines that spin on GetLog(LastIndex()+1) / GetLog(LastIndex()) against the live
+	// tail until the writer is done. Only anomalies are recorded (anything but "not found" or the right entry).
+	HotReaders int `json:"hotReaders"`
 }
 
 var out *bufio.Writer
@@ -288,7 +294,99 @@ func (a *absLog) last() uint64 {
 	return a.first + uint64(len(a.cids)) - 1
 }
 
+// segStress: the publication protocol of the tail's in-memory index (offsets, commit index) under many tight-looping
+// readers: one goroutine appends len(Prog) entries to a segment.Writer over the sim fs, HotReaders goroutines spin on
+// GetLog(LastIndex()+1) and GetLog(LastIndex()). A read returns "not found" or exactly the entry appended at that index;
+// anything else (a panic, another error, foreign bytes) is recorded.
+func segStress(sc *Scenario) {
+	emit(map[string]any{"ev": "reset", "id": sc.ID, "mode": sc.Mode, "withCloser": false, "prog": []string{}})
+	rec := sim.NewRecorder()
+	fs := sim.NewFS(rec, sim.EmptyImage())
+	filer := segment.NewFiler("d", fs)
+	info := types.SegmentInfo{ID: 1, BaseIndex: 1, MinIndex: 1, SizeLimit: uint32(sc.SegSize), Codec: 1, CreateTime: time.Now()}
+	w, err := filer.Create(info)
+	if err != nil {
+		emit(map[string]any{"ev": "harness_panic", "who": "segstress", "msg": err.Error(), "stack": ""})
+		return
+	}
+	defer w.Close()
+	payload := func(i uint64) []byte {
+		b := make([]byte, 24)
+		for k := 0; k < 3; k++ {
+			binary.LittleEndian.PutUint64(b[8*k:], i*2654435761+uint64(k))
+		}
+		return b
+	}
+	var over int32
+	var reads, anomalies int64
+	var wg sync.WaitGroup
+	for h := 0; h < sc.HotReaders; h++ {
+		h := h
+		wg.Add(1)
+		go func() {
+			defer wg.Done()
+			defer func() {
+				if p := recover(); p != nil {
+					buf := make([]byte, 4096)
+					n := runtime.Stack(buf, false)
+					ev := "panic"
+					if !strings.Contains(string(buf[:n]), "raft-wal/segment") {
+						ev = "harness_panic"
+					}
+					emit(map[string]any{"ev": ev, "who": "segment tail reader", "msg": fmt.Sprint(p), "stack": string(buf[:n])})
+				}
+			}()
+			var n int64
+			defer func() { atomic.AddInt64(&reads, n) }()
+			for atomic.LoadInt32(&over) == 0 {
+				idx := w.LastIndex() + 1
+				if h%4 == 3 && idx > 1 {
+					idx--
+				}
+				pb, err := w.GetLog(idx)
+				n++
+				if err != nil {
+					if errors.Is(err, types.ErrNotFound) {
+						continue
+					}
+				} else {
+					ok := bytes.Equal(pb.Bs, payload(idx))
+					pb.Close()
+					if ok {
+						continue
+					}
+				}
+				if atomic.AddInt64(&anomalies, 1) <= 5 {
+					emit(map[string]any{"ev": "anomaly", "what": "tail read", "idx": idx, "msg": emsg(err)})
+				}
+			}
+		}()
+	}
+	began := time.Now()
+	appended := uint64(0)
+	for i := uint64(1); i <= uint64(len(sc.Prog)); i++ {
+		if err := w.Append([]types.LogEntry{{Index: i, Data: payload(i)}}); err != nil {
+			break // segment full (sealed): the stress is over
+		}
+		appended = i
+		if i%16 == 0 {
+			runtime.Gosched()
+			if time.Since(began) > 1500*time.Millisecond {
+				break // a time budget, not a work budget: the readers outnumber the cores
+			}
+		}
+	}
+	atomic.StoreInt32(&over, 1)
+	wg.Wait()
+	emit(map[string]any{"ev": "note", "segReads": atomic.LoadInt64(&reads), "segAppends": appended})
+	emit(map[string]any{"ev": "schedule", "len": 0, "passed": 0, "aborted": false, "reason": "", "solo": "", "soloHeld": 0})
+}
+
 func runScenario(sc *Scenario) {
+	if sc.Mode == "segstress" {
+		segStress(sc)
+		return
+	}
 	emit(map[string]any{"ev": "reset", "id": sc.ID, "mode": sc.Mode, "withCloser": sc.WithCloser, "prog": sc.Prog})
 	wd := &world{sc: sc, pool: valpool.New(sc.Seed, false)}
 	if sc.World == "real" {
@@ -385,7 +483,10 @@ func runScenario(sc *Scenario) {
 		}()
 	}
 	// writer
+	var hotReads int64
+	var writerOver int32
 	spawn("w", func() {
+		defer atomic.StoreInt32(&writerOver, 1)
 		for _, op := range sc.Prog {
 			ctl.at("call")
 			atomic.AddInt64(&started, 1)
@@ -523,6 +624,44 @@ func runScenario(sc *Scenario) {
 			}
 		})
 	}
+	for h := 0; h < sc.HotReaders && sc.Mode == "free"; h++ {
+		h := h
+		spawn(fmt.Sprintf("hot%d", h), func() {
+			var n int64
+			defer func() { atomic.AddInt64(&hotReads, n) }()
+			for atomic.LoadInt32(&writerOver) == 0 && atomic.LoadInt32(&closeStarted) == 0 {
+				from := atomic.LoadInt64(&done)
+				l, err := wd.w.LastIndex()
+				if err != nil {
+					runtime.Gosched()
+					continue
+				}
+				idx := l + 1 // the index about to be appended
+				if h%4 == 3 && l > 0 {
+					idx = l // every fourth reader: the newest one
+				}
+				var lg raft.Log
+				err = wd.w.GetLog(idx, &lg)
+				n++
+				if n%8 == 0 {
+					runtime.Gosched() // the writer must keep moving: this is a stress on the tail, not a starvation test
+				}
+				if err != nil && (errors.Is(err, raft.ErrLogNotFound) || errors.Is(err, wal.ErrClosed)) {
+					continue
+				}
+				cid := 0
+				if err == nil {
+					cid = wd.pool.Identify(idx, &lg)
+					if cid != 0 {
+						continue
+					}
+				}
+				to := atomic.LoadInt64(&started)
+				emit(map[string]any{"ev": "read", "p": 90 + h, "kind": "get", "idx": idx, "res": class(err), "val": cid, "from": from, "to": to,
+					"cs": atomic.LoadInt32(&closeStarted), "msg": emsg(err), "sd": int64(1 << 30)})
+			}
+		})
+	}
 	if sc.WithStable {
 		spawn("stable", func() {
 			ctl.at("call")
@@ -551,7 +690,7 @@ func runScenario(sc *Scenario) {
 	stuck := false
 	select {
 	case <-allDone:
-	case <-time.After(10 * time.Second):
+	case <-time.After(time.Duration(10+50*min(1, sc.HotReaders)) * time.Second):
 		stuck = true
 		buf := make([]byte, 1<<16)
 		n := runtime.Stack(buf, true)
@@ -563,6 +702,9 @@ func runScenario(sc *Scenario) {
 		outMu.Lock()
 		deferred = nil
 		outMu.Unlock()
+	}
+	if sc.HotReaders > 0 {
+		emit(map[string]any{"ev": "note", "hotReads": atomic.LoadInt64(&hotReads)})
 	}
 	ctl.mu.Lock()
 	emit(map[string]any{"ev": "schedule", "len": len(ctl.sched), "passed": ctl.passed, "aborted": ctl.aborted, "reason": ctl.reason,
